@@ -26,7 +26,7 @@ static inline bool known_message(DP &dp, Normal &n, int &node, ref::Msg &m) {
 		l = t.addrl; h = t.addrh;
 	};
 	for (int attempt = 0; attempt < 6; attempt++) {
-		unsigned k = dp.pick(14);
+		unsigned k = dp.pick(15);
 		uint8_t l, h;
 		switch (k) {
 		case 0: if (!b->in_track || b->segments.empty()) break;
@@ -78,6 +78,11 @@ static inline bool known_message(DP &dp, Normal &n, int &node, ref::Msg &m) {
 			else { m.type = M::CS_ACCESSORY_MANUAL; m.data = {x->addrl, x->addrh, dp.u8()}; }
 			return true;
 		}
+		case 14:   // a hand-held controller drives a decoder: mostly a configured train, now and then an address nobody configured
+			if (!b->is_track_output()) break;
+			train(l, h);
+			if (dp.chance(60)) { l = dp.u8(); h = (uint8_t) dp.pick(64); }
+			m.type = M::CS_DRIVE_MANUAL; m.data = {l, h, (uint8_t) dp.pick(4), (uint8_t) dp.pick(64), dp.u8(), dp.u8(), dp.u8(), dp.u8(), dp.u8()}; return true;
 		case 13:   // position report (RailCom): queued for the user, mirrored for SecAck boards
 			train(l, h); m.type = M::BM_POSITION; m.data = {l, h, 0, dp.u8(), dp.u8()}; return true;
 		default: {
